@@ -94,6 +94,7 @@ def name_to_num(prog, rep, rule, trait, self_s, arg_s, name, expected, extra=Non
 
 
 def check(env, rep, tier):
+    include(rep, env, tier, "c01", ("C01.1",), "C05.5", "'message type <-> 2-bit field': the header accessors write and read exactly their bit fields of the first byte")
     configs = ["default"] if tier == "quick" else ["default", "nodefault", "udp"]
     rep.configs = configs
     for cfg in configs:
